@@ -221,12 +221,76 @@ Section UF.
     unfold uf3_ref. uf_finish.
   Qed.
 
+  (* ---- UF5, UF6 and the constrained CF1, CF3 (objectives and constraint value) *)
+  Lemma uf5_gen_eq_ref : UF5_eval 2 (Z.of_nat n) x = uf5_ref x.
+  Proof.
+    unfold UF5_eval. uf_loop.
+    rewrite (psum_sumJ true Y1 (fun j => uf5_h (uf_y1 x j)) n), (psum_sumJ false Y2 (fun j => uf5_h (uf_y1 x j)) n).
+    2,3: intros t Ht Hodd; unfold Y1, Y2, uf5_h, uf_y1, X; cbv beta; uf_body t; real_eq.
+    unfold uf5_ref. uf_finish.
+  Qed.
+  Lemma y1_norm : forall t, (t < n - 1)%nat ->
+    py_nth x (2 + Z.of_nat t - 1) - sin (6 * PI * py_nth x 0 + IZR (2 + Z.of_nat t) * PI / IZR (Z.of_nat n)) = uf_y1 x (t + 2).
+  Proof. intros t Ht. unfold uf_y1, X. uf_body t. reflexivity. Qed.
+  Ltac uf_loop6 :=
+    cbv zeta; canon_loop6;
+    replace (Z.of_nat n + 1)%Z with (2 + Z.of_nat (n - 1))%Z by lia; rewrite fold_step6; cbv beta iota;
+    rewrite !IZR_pcnt_cntJ.
+  Ltac y1_terms Y1 Y2 P1 P2 :=
+    rewrite (psum_sumJ true Y1 (fun j => uf_y1 x j ^ 2) n), (psum_sumJ false Y2 (fun j => uf_y1 x j ^ 2) n);
+    [ rewrite (pprod_prodJ true P1 (fun j => cos (20 * uf_y1 x j * PI / sqrt (INR j))) n),
+              (pprod_prodJ false P2 (fun j => cos (20 * uf_y1 x j * PI / sqrt (INR j))) n);
+      [ | intros t Ht Hodd; unfold P1, P2; cbv beta; rewrite <- (y1_norm t Ht);
+          replace (INR (t + 2)) with (IZR (2 + Z.of_nat t)) by (rewrite INR_IZR_INZ; f_equal; lia); real_eq ..]
+    | intros t Ht Hodd; unfold Y1, Y2; cbv beta; rewrite <- (y1_norm t Ht); real_eq .. ].
+  Lemma uf6_gen_eq_ref : UF6_eval 2 (Z.of_nat n) x = uf6_ref x.
+  Proof.
+    unfold UF6_eval. uf_loop6. y1_terms Y1 Y2 P1 P2.
+    unfold uf6_ref. cbv zeta. rewrite ?Hl. repeat rewrite (py_nth_eq x 0%Z 0) by reflexivity. unfold X.
+    pose proof (cntJ_pos_odd n Hn). pose proof (cntJ_pos_even n ltac:(lia)).
+    rewrite (Rmax_comm _ 0). same_arg' (Rmax 0). two_objs; real_eq.
+  Qed.
+  Lemma cf3_gen_eq_ref : CF3_eval 2 (Z.of_nat n) x = cf3_objs x.
+  Proof. unfold CF3_eval. uf_loop6. y1_terms Y1 Y2 P1 P2. unfold cf3_objs. uf_finish. Qed.
+  Lemma py_set_single : forall v, py_set (py_repeat 0 1) 0 v = [v]. Proof. reflexivity. Qed.
+  Lemma cf3_constr_gen_eq_ref : CF3_constr_eval 2 (Z.of_nat n) x = cf3_constr x.
+  Proof.
+    pose proof cf3_gen_eq_ref as E. unfold CF3_eval in E. unfold CF3_constr_eval. cbv zeta in *. revert E.
+    match goal with |- context [fold_left ?F ?L ?I] => destruct (fold_left F L I) as [[[[[? ?] ?] ?] ?] ?] end. intros E.
+    match type of E with [?a; ?b] = _ => set (f1 := a) in *; set (f2 := b) in * end.
+    rewrite py_set_single. unfold cf3_constr. cbv zeta. rewrite <- E. cbn [nth]. apply cons_eq; [real_eq|reflexivity].
+  Qed.
+  Lemma cf1_gen_eq_ref : CF1_eval 2 (Z.of_nat n) x = cf1_objs x.
+  Proof.
+    unfold CF1_eval. uf_loop.
+    assert (YE : forall t, (t < n - 1)%nat ->
+       py_nth x (2 + Z.of_nat t - 1) - py_rpow (py_nth x 0) (1 / 2 * (1 + 3 * (IZR (2 + Z.of_nat t) - 2) / (IZR (Z.of_nat n) - 2)))
+       = uf3_y x (t + 2)).
+    { intros t Ht. unfold uf3_y, X. uf_body t. reflexivity. }
+    rewrite (psum_sumJ true Y1 (fun j => uf3_y x j ^ 2) n), (psum_sumJ false Y2 (fun j => uf3_y x j ^ 2) n).
+    2,3: intros t Ht Hodd; unfold Y1, Y2; cbv beta; same_arg' py_rpow; rewrite <- (YE t Ht); real_eq.
+    unfold cf1_objs. uf_finish.
+  Qed.
+  Lemma cf1_constr_gen_eq_ref : CF1_constr_eval 2 (Z.of_nat n) x = cf1_constr x.
+  Proof.
+    pose proof cf1_gen_eq_ref as E. unfold CF1_eval in E. unfold CF1_constr_eval. cbv zeta in *. revert E.
+    match goal with |- context [fold_left ?F ?L ?I] => destruct (fold_left F L I) as [[[? ?] ?] ?] end. intros E.
+    match type of E with [?a; ?b] = _ => set (f1 := a) in *; set (f2 := b) in * end.
+    rewrite py_set_single. unfold cf1_constr. cbv zeta. rewrite <- E. cbn [nth]. apply cons_eq; [same_arg' Rabs; real_eq|reflexivity].
+  Qed.
+
   (* ---- exactly two objectives *)
   Lemma uf1_out_length : length (UF1_eval 2 (Z.of_nat n) x) = 2%nat. Proof. now rewrite uf1_gen_eq_ref. Qed.
   Lemma uf2_out_length : length (UF2_eval 2 (Z.of_nat n) x) = 2%nat. Proof. now rewrite uf2_gen_eq_ref. Qed.
   Lemma uf3_out_length : length (UF3_eval 2 (Z.of_nat n) x) = 2%nat. Proof. now rewrite uf3_gen_eq_ref. Qed.
   Lemma uf4_out_length : length (UF4_eval 2 (Z.of_nat n) x) = 2%nat. Proof. now rewrite uf4_gen_eq_ref. Qed.
   Lemma uf7_out_length : length (UF7_eval 2 (Z.of_nat n) x) = 2%nat. Proof. now rewrite uf7_gen_eq_ref. Qed.
+  Lemma uf5_out_length : length (UF5_eval 2 (Z.of_nat n) x) = 2%nat. Proof. now rewrite uf5_gen_eq_ref. Qed.
+  Lemma uf6_out_length : length (UF6_eval 2 (Z.of_nat n) x) = 2%nat. Proof. now rewrite uf6_gen_eq_ref. Qed.
+  Lemma cf1_out_length : length (CF1_eval 2 (Z.of_nat n) x) = 2%nat /\ length (CF1_constr_eval 2 (Z.of_nat n) x) = 1%nat.
+  Proof. now rewrite cf1_gen_eq_ref, cf1_constr_gen_eq_ref. Qed.
+  Lemma cf3_out_length : length (CF3_eval 2 (Z.of_nat n) x) = 2%nat /\ length (CF3_constr_eval 2 (Z.of_nat n) x) = 1%nat.
+  Proof. now rewrite cf3_gen_eq_ref, cf3_constr_gen_eq_ref. Qed.
 
   (* ---- no in-bounds point below the published front (only 0 <= x_1 is needed) *)
   Hypothesis Hx0 : 0 <= X x 0.
@@ -280,6 +344,64 @@ Section UF.
     assert (B : 0 <= 2 / cntJ false n * sumJ false (fun j => uf_y1 x j ^ 2) n).
     { apply scaled_nonneg; [apply cntJ_pos_even; lia|apply sumJ_nonneg; intros; apply pow2_ge_0]. }
     lra.
+  Qed.
+
+  (* ---- no Python exception on in-bounds input (x_1 in [0,1]; the other variables are unconstrained here) *)
+  Lemma pcnt_true_ne0 : IZR (pcnt true (n - 1)) <> 0.
+  Proof. rewrite IZR_pcnt_cntJ. pose proof (cntJ_pos_odd n Hn). lra. Qed.
+  Lemma pcnt_false_ne0 : IZR (pcnt false (n - 1)) <> 0.
+  Proof. rewrite IZR_pcnt_cntJ. pose proof (cntJ_pos_even n ltac:(lia)). lra. Qed.
+  Lemma n_ne0 : IZR (Z.of_nat n) <> 0.
+  Proof. rewrite <- INR_IZR_INZ. pose proof (le_INR 3 n Hn). simpl in H. lra. Qed.
+  Lemma nm2_ne0 : IZR (Z.of_nat n) - 2 <> 0 \/ (n = 2)%nat.
+  Proof. left. rewrite <- INR_IZR_INZ. pose proof (le_INR 3 n Hn). simpl in H. lra. Qed.
+
+  Ltac side_atom :=
+    lazymatch goal with
+    | |- idx_ok _ _ => unfold idx_ok, zlen; rewrite Hl; lia
+    | |- IZR (Z.of_nat n) <> 0 => exact n_ne0
+    | |- IZR (pcnt true _) <> 0 => exact pcnt_true_ne0
+    | |- IZR (pcnt false _) <> 0 => exact pcnt_false_ne0
+    | |- 0 <= py_nth x 0 => rewrite (py_nth_eq x 0%Z 0) by reflexivity; exact Hx0
+    | |- @eq Z _ _ => reflexivity
+    | |- Z.le _ _ => unfold zlen; rewrite Hl; lia
+    | |- Z.lt _ _ => unfold zlen; rewrite Hl; lia
+    | |- (if ?c then _ else _) => destruct c; repeat split; side_atom
+    | |- _ => idtac
+    end.
+  Ltac uf_defined4 :=
+    cbv zeta; split;
+    [ apply Forall_forall; intros j Hj; apply in_zrange in Hj; repeat split; side_atom
+    | canon_loop4; replace (Z.of_nat n + 1)%Z with (2 + Z.of_nat (n - 1))%Z by lia; rewrite fold_step4; cbv beta iota;
+      repeat split; side_atom ].
+
+  Lemma uf1_defined : UF1_defined 2 (Z.of_nat n) x. Proof. unfold UF1_defined. uf_defined4. Qed.
+  Lemma uf2_defined : UF2_defined 2 (Z.of_nat n) x. Proof. unfold UF2_defined. uf_defined4. Qed.
+  Lemma uf4_defined : UF4_defined 2 (Z.of_nat n) x.
+  Proof. unfold UF4_defined. uf_defined4. pose proof (exp_pos (2 * Rabs (py_nth x (j - 1) - sin (6 * PI * py_nth x 0 + IZR j * PI / IZR (Z.of_nat n))))). lra. Qed.
+
+  Lemma rpow_ok_x0 : forall e, 0 <= e -> rpow_ok (py_nth x 0) e.
+  Proof.
+    intros e He. rewrite (py_nth_eq x 0%Z 0) by reflexivity. fold (X x 0). unfold rpow_ok.
+    destruct Hx0 as [P|Z]; [now left|right; split; [now symmetry|exact He]].
+  Qed.
+  Lemma uf7_defined : UF7_defined 2 (Z.of_nat n) x.
+  Proof. unfold UF7_defined. uf_defined4. apply rpow_ok_x0. lra. Qed.
+
+  Ltac uf_defined6 :=
+    cbv zeta; split;
+    [ apply Forall_forall; intros j Hj; apply in_zrange in Hj; repeat split; side_atom
+    | canon_loop6; replace (Z.of_nat n + 1)%Z with (2 + Z.of_nat (n - 1))%Z by lia; rewrite fold_step6; cbv beta iota;
+      repeat split; side_atom ].
+  Lemma uf3_defined : UF3_defined 2 (Z.of_nat n) x.
+  Proof.
+    unfold UF3_defined. uf_defined6.
+    all: assert (J2 : 2 <= IZR j) by (apply (IZR_le 2); lia);
+         assert (N3 : 3 <= IZR (Z.of_nat n)) by (apply (IZR_le 3); lia).
+    - lra.
+    - apply rpow_ok_x0. assert (0 <= 3 * (IZR j - 2) / (IZR (Z.of_nat n) - 2)) by (apply div_nonneg; lra). lra.
+    - lra.
+    - apply Rgt_not_eq, sqrt_lt_R0. lra.
   Qed.
 End UF.
 
